@@ -294,7 +294,94 @@ fn negative_literals(q: PTerm) -> PGoal {
     proto_vulcan!(|x| { member(x, [-1, 0, 1]), x != -1, q == x })
 }
 
+fn strings_and_bools(q: PTerm) -> PGoal {
+    proto_vulcan!(|x, y| {
+        member(x, ["a", "b", "a"]),
+        x != "b",
+        member(y, [true, false]),
+        y != false,
+        q == 1,
+    })
+}
+
+fn diseq_two_pairs(q: PTerm) -> PGoal {
+    proto_vulcan!(|x, y| {
+        [x, y] != [1, 2],
+        member(x, [1, 3]),
+        member(y, [2, 4]),
+        project |x, y| { combine(x, y, q) }
+    })
+}
+
+fn diseq_var_var(q: PTerm) -> PGoal {
+    proto_vulcan!(|x, y| { x != y, member(x, [1, 2]), member(y, [1, 2]), project |x, y| { combine(x, y, q) } })
+}
+
 // ---------------------------------------------------------------------------------- C06
+fn for_loop_collection(q: PTerm) -> PGoal {
+    let a: PTerm = LTerm::var("a");
+    let b: PTerm = LTerm::var("b");
+    let c: PTerm = LTerm::var("c");
+    let coll = vec![a.clone(), b.clone(), c.clone()];
+    proto_vulcan!([
+        for x in &coll { member(x, [1, 2]) },
+        a != b,
+        b != c,
+        a == q,
+    ])
+}
+
+fn match_three_terms(q: PTerm) -> PGoal {
+    proto_vulcan!(|l, s| {
+        member(l, [[], [1], [1, 2]]),
+        s == 9,
+        match [l, s, q] {
+            [[], x, x] => ,
+            [[x | _], _, x] => ,
+        }
+    })
+}
+
+fn match_nested_pattern(q: PTerm) -> PGoal {
+    proto_vulcan!(|x| {
+        x == [[1, 2], 3, 4],
+        match x {
+            [[a, b] | t] => member(q, [a, b | t]),
+            _ => q == 0,
+        }
+    })
+}
+
+fn closure_relation(q: PTerm) -> PGoal {
+    fn pick_or_zero(l: PTerm, out: PTerm) -> PGoal {
+        proto_vulcan_closure!(match l {
+            [] => out == 0,
+            [h | t] => conde { out == h, pick_or_zero(t, out) },
+        })
+    }
+    pick_or_zero(lterm!([3, 2, 1]), q)
+}
+
+fn fresh_five_goals(q: PTerm) -> PGoal {
+    proto_vulcan!(|a, b, c, d| {
+        a == 1,
+        b == [a, 2],
+        c == [b, 3],
+        d == [c, 4],
+        match d {
+            [[[x, y], z], w] => member(q, [x, y, z, w]),
+        }
+    })
+}
+
+fn operator_then_goals(q: PTerm) -> PGoal {
+    proto_vulcan!(|x| { conde { x == 1, x == 2, x == 3 }, x != 2, q == x })
+}
+
+fn onceo_in_conde(q: PTerm) -> PGoal {
+    proto_vulcan!(conde { [onceo { member(q, [1, 2, 3]) }], [q == 7], [onceo { false }] })
+}
+
 fn literal_tail_member(q: PTerm) -> PGoal {
     proto_vulcan!(|t| { t == [1 | [2, 3]], member(q, t) })
 }
@@ -398,6 +485,16 @@ pub fn corpus() -> Vec<Entry> {
         e("improper-list-three-heads", "C02", false, improper_three_heads, &[4, 5]),
         e("nested-empty-lists", "C02", false, nested_empty_lists, &[1]),
         e("negative-literals", "C02", false, negative_literals, &[0, 1]),
+        e("strings-and-booleans", "C02", false, strings_and_bools, &[1, 1]),
+        e("disequality-two-pairs", "C02", false, diseq_two_pairs, &[14, 32, 34]),
+        e("disequality-var-var", "C02", false, diseq_var_var, &[12, 21]),
+        e("for-loop-collection", "C06", false, for_loop_collection, &[1, 2]),
+        e("match-three-terms", "C06", false, match_three_terms, &[1, 1, 9]),
+        e("match-nested-pattern", "C06", false, match_nested_pattern, &[0, 1, 2, 3, 4]),
+        e("closure-relation", "C06", false, closure_relation, &[0, 1, 2, 3]),
+        e("fresh-five-goals", "C06", false, fresh_five_goals, &[1, 2, 3, 4]),
+        e("operator-then-goals", "C06", false, operator_then_goals, &[1, 3]),
+        e("onceo-in-conde", "C08", false, onceo_in_conde, &[1, 7]),
         e("literal-tail-member", "C06", false, literal_tail_member, &[1, 2, 3]),
         e("match-alternation-arm", "C06", false, match_alternation, &[0, 1, 1, 1, 1, 2, 2]),
         e("nested-brackets", "C06", false, nested_brackets, &[13, 14]),
